@@ -59,6 +59,11 @@ func (d *DBFT[H]) addTransaction(tx Transaction[H]) {
 // all of its transactions are collected.
 func (d *DBFT[H]) checkTransactions() {
 	if d.hasAllTransactions() {
+		// PreCommits received while some transactions were missing could not
+		// be verified, it can be done now whatever our role is and whatever
+		// the block verification result is.
+		d.verifyPreCommitPayloadsAgainstPreBlock()
+
 		if d.IsPrimary() || d.Context.WatchOnly() {
 			return
 		}
@@ -66,8 +71,6 @@ func (d *DBFT[H]) checkTransactions() {
 		if !d.createAndCheckBlock() {
 			return
 		}
-
-		d.verifyPreCommitPayloadsAgainstPreBlock()
 
 		d.extendTimer(2)
 		d.sendPrepareResponse()
